@@ -102,9 +102,14 @@ pub fn build_pool(ctx: &Ctx, rng: &mut Rng, cache: &mut TreeCache, tool: Option<
             shapes.push(vec![(10, 8), (15, 4), (25, 8)]);
             shapes.push((0..8).map(|i| ([25u32, 20, 15, 10, 25, 5, 20, 25][i], 8u32)).collect());
         }
+        // the largest signature the format allows for this hash: 8 levels of H25 / W1
+        // (74 988 bytes for the 32-byte hashes = MAX_HSS_SIGNATURE_LENGTH; every cursor, length
+        // field and fixed-capacity buffer of the parser is at its maximum)
+        shapes.push(vec![(25, 1); 8]);
         if !ctx.quick() {
             shapes.push(vec![(25, 1)]);
             shapes.push(vec![(20, 1), (25, 2)]);
+            shapes.push(vec![(25, 1); 7]);
         }
         for (si, spec) in shapes.iter().enumerate() {
             let lv = levels(spec);
